@@ -833,4 +833,495 @@ theorem revAll_eq (file buf : Bytes) (hb : buf ≠ []) :
       rw [List.length_reverse] at h2
       omega
 
+/-! ### the written line parses back -/
+/-! ### decimal rendering parses back -/
+
+def decVal (bs : Bytes) : Nat := bs.foldl (fun acc b => acc * 10 + (b.toNat - 48)) 0
+
+theorem digit_ofNat : ∀ d : Nat, d < 10 →
+    isDigit (UInt8.ofNat (48 + d)) = true ∧ (UInt8.ofNat (48 + d)).toNat - 48 = d
+      ∧ UInt8.ofNat (48 + d) ≠ 43 ∧ UInt8.ofNat (48 + d) ≠ 45 ∧ UInt8.ofNat (48 + d) ≠ 32 
+      ∧ UInt8.ofNat (48 + d) ≠ 10 ∧ UInt8.ofNat (48 + d) ≠ 9 ∧ UInt8.ofNat (48 + d) ≠ 62 := by
+  decide +kernel
+
+theorem digitsFuel_spec : ∀ (fuel n : Nat), n < 10 ^ (fuel + 1) →
+    digitsFuel 10 (fuel + 1) n ≠ [] ∧ (digitsFuel 10 (fuel + 1) n).all isDigit = true
+      ∧ decVal (digitsFuel 10 (fuel + 1) n) = n := by
+  intro fuel
+  induction fuel with
+  | zero =>
+    intro n hn
+    have hn' : n < 10 := by simpa using hn
+    have := digit_ofNat n hn'
+    simp only [digitsFuel, hn', if_true]
+    refine ⟨List.cons_ne_nil _ _, ?_, ?_⟩
+    · simp only [List.all_cons, List.all_nil, this.1, Bool.and_true]
+    · simp only [decVal, List.foldl_cons, List.foldl_nil, this.2.1]; omega
+  | succ fuel ih =>
+    intro n hn
+    rw [digitsFuel]
+    by_cases h10 : n < 10
+    · have := digit_ofNat n h10
+      simp only [h10, if_true]
+      refine ⟨List.cons_ne_nil _ _, ?_, ?_⟩
+      · simp only [List.all_cons, List.all_nil, this.1, Bool.and_true]
+      · simp only [decVal, List.foldl_cons, List.foldl_nil, this.2.1]; omega
+    · simp only [h10, if_false]
+      have hdiv : n / 10 < 10 ^ (fuel + 1) := by
+        rw [Nat.div_lt_iff_lt_mul (by omega)]
+        rw [Nat.pow_succ] at hn; exact hn
+      obtain ⟨h1, h2, h3⟩ := ih (n / 10) hdiv
+      have hd := digit_ofNat (n % 10) (Nat.mod_lt _ (by omega))
+      refine ⟨by simp, ?_, ?_⟩
+      · rw [List.all_append, h2]; simp only [List.all_cons, List.all_nil, hd.1, Bool.and_true]
+      · unfold decVal at h3 ⊢
+        rw [List.foldl_append, h3]
+        simp only [List.foldl_cons, List.foldl_nil, hd.2.1]
+        omega
+
+theorem natDec_spec (n : Nat) :
+    natDec n ≠ [] ∧ (natDec n).all isDigit = true ∧ decVal (natDec n) = n := by
+  unfold natDec
+  apply digitsFuel_spec
+  have h1 : n < 2 ^ (n.log2 + 1) := Nat.lt_log2_self
+  have h2 : 2 ^ (n.log2 + 1) ≤ 10 ^ (n.log2 + 1) := Nat.pow_le_pow_left (by omega) _
+  omega
+
+theorem parseNatDec_of_digits {bs : Bytes} (h1 : bs ≠ []) (h2 : bs.all isDigit = true) :
+    parseNatDec? bs = some (decVal bs) := by
+  unfold parseNatDec?
+  have : bs.isEmpty = false := by cases bs with | nil => exact absurd rfl h1 | cons _ _ => rfl
+  simp [this, h2, decVal]
+
+theorem parseNatDec_natDec (n : Nat) : parseNatDec? (natDec n) = some n := by
+  obtain ⟨h1, h2, h3⟩ := natDec_spec n
+  rw [parseNatDec_of_digits h1 h2, h3]
+
+theorem toSigned_intDec (lo hi : Int) (i : Int) (h1 : lo ≤ i) (h2 : i ≤ hi) :
+    toSigned lo hi (intDec i) = some i := by
+  unfold intDec
+  by_cases hneg : i < 0
+  · simp only [hneg, if_true, toSigned]
+    simp only [show ((45 : UInt8) = 43) = False by decide, if_false, parseNatDec_natDec]
+    have : -(i.natAbs : Int) = i := by omega
+    simp only [this, h1, if_true]
+  · simp only [hneg, if_false]
+    obtain ⟨hne, hall, hval⟩ := natDec_spec i.natAbs
+    cases hd : natDec i.natAbs with
+    | nil => exact absurd hd hne
+    | cons b r =>
+      rw [hd] at hall
+      simp only [List.all_cons, Bool.and_eq_true] at hall
+      have hb : isDigit b = true := hall.1
+      have hb43 : ¬ b = 43 := by intro h; subst h; simp [isDigit] at hb
+      have hb45 : ¬ b = 45 := by intro h; subst h; simp [isDigit] at hb
+      simp only [toSigned, hb43, hb45, if_false]
+      rw [← hd, parseNatDec_natDec]
+      have : (i.natAbs : Int) = i := by omega
+      simp only [this, h2, if_true]
+
+
+theorem intDec_mem (s : Int) : ∀ x ∈ intDec s, x = 45 ∨ isDigit x = true := by
+  intro x hx
+  have hall := (natDec_spec s.natAbs).2.1
+  rw [List.all_eq_true] at hall
+  unfold intDec at hx
+  by_cases hneg : s < 0
+  · simp only [hneg, if_true, List.mem_cons] at hx
+    rcases hx with h | h
+    · exact Or.inl h
+    · exact Or.inr (hall x h)
+  · simp only [hneg, if_false] at hx
+    exact Or.inr (hall x hx)
+
+theorem twoDigits_table : ∀ h : Nat, h < 100 →
+    twoDigits h = [UInt8.ofNat (48 + h / 10), UInt8.ofNat (48 + h % 10)]
+    ∧ isDigit (UInt8.ofNat (48 + h / 10)) = true ∧ isDigit (UInt8.ofNat (48 + h % 10)) = true
+    ∧ toSigned i32Min i32Max [UInt8.ofNat (48 + h / 10), UInt8.ofNat (48 + h % 10)] = some (h : Int) := by
+  decide +kernel
+
+theorem isDigit_ne {x : UInt8} (h : isDigit x = true) :
+    x ≠ 32 ∧ x ≠ 45 ∧ x ≠ 43 ∧ x ≠ 62 ∧ x ≠ 10 ∧ x ≠ 9 := by
+  refine ⟨?_, ?_, ?_, ?_, ?_, ?_⟩ <;> (intro he; subst he; revert h; decide)
+
+theorem takeWhileMN_hhmm {a b c d : UInt8} (ha : isDigit a = true) (hb : isDigit b = true)
+    (hc : isDigit c = true) (hd : isDigit d = true) :
+    takeWhileMN 2 2 isDigit [a, b, c, d] = some ([a, b], [c, d])
+    ∧ takeWhileMN 1 2 isDigit [c, d] = some ([c, d], []) := by
+  simp [takeWhileMN, List.takeWhile, ha, hb, hc, hd]
+
+/-- the time grammar reads back what `Time::write_to` wrote, on the canonical domain -/
+def TimeCanonical (t : Time) : Prop :=
+  i64Min ≤ t.seconds ∧ t.seconds ≤ i64Max ∧ t.offset % 60 = 0 ∧
+    (t.offset < 0 → t.minus = true) ∧ (0 < t.offset → t.minus = false)
+
+instance (t : Time) : Decidable (TimeCanonical t) := by unfold TimeCanonical; infer_instance
+
+theorem parseTime_written (t : Time) (tb : Bytes) (hw : t.write = some tb) (hc : TimeCanonical t) :
+    parseTime tb = some (t, []) := by
+  obtain ⟨hlo, hhi, hmod, hneg, hpos⟩ := hc
+  unfold Time.write at hw
+  simp only at hw
+  by_cases hh : t.offset.natAbs / 3600 > 99
+  · simp [hh] at hw
+  · simp only [hh, if_false, Option.some.injEq] at hw
+    generalize hH : t.offset.natAbs / 3600 = H at hw hh
+    generalize hM : (t.offset.natAbs - H * 3600) / 60 = M at hw
+    have hH100 : H < 100 := by omega
+    have hM100 : M < 100 := by omega
+    obtain ⟨hHeq, hHa, hHb, hHval⟩ := twoDigits_table H hH100
+    obtain ⟨hMeq, hMa, hMb, hMval⟩ := twoDigits_table M hM100
+    rw [hHeq, hMeq] at hw
+    generalize UInt8.ofNat (48 + H / 10) = a at hw hHa hHval
+    generalize UInt8.ofNat (48 + H % 10) = b at hw hHb hHval
+    generalize UInt8.ofNat (48 + M / 10) = c at hw hMa hMval
+    generalize UInt8.ofNat (48 + M % 10) = d at hw hMb hMval
+    generalize hsg : (if t.minus = true then (45 : UInt8) else 43) = sg at hw
+    have htb : tb = intDec t.seconds ++ 32 :: sg :: [a, b, c, d] := by rw [← hw]; simp
+    have h32 : (32 : UInt8) ∉ intDec t.seconds := by
+      intro hm
+      rcases intDec_mem _ _ hm with h | h
+      · exact absurd h (by decide)
+      · exact absurd h (by decide)
+    have hfind : findByte 32 tb = some (intDec t.seconds).length := by
+      rw [htb]; exact findByte_append h32
+    have htake : tb.take (intDec t.seconds).length = intDec t.seconds := by
+      rw [htb]; exact List.take_left
+    have hdrop : tb.drop ((intDec t.seconds).length + 1) = sg :: [a, b, c, d] := by
+      rw [htb]
+      have : intDec t.seconds ++ 32 :: sg :: [a, b, c, d] = (intDec t.seconds ++ [32]) ++ sg :: [a, b, c, d] := by simp
+      rw [this]; exact List.drop_left' (by simp)
+    have hsecs := toSigned_intDec i64Min i64Max t.seconds hlo hhi
+    have ha := isDigit_ne hHa
+    -- the offset read back
+    have hA : H * 3600 + M * 60 = t.offset.natAbs := by
+      have : t.offset.natAbs % 60 = 0 := by omega
+      omega
+    have hoff : ((H : Int) * 3600 + (M : Int) * 60) * (if t.minus = true then -1 else 1) = t.offset := by
+      have hA' : (H : Int) * 3600 + (M : Int) * 60 = (t.offset.natAbs : Int) := by
+        rw [← hA]; simp
+      rw [hA']
+      cases hmin : t.minus with
+      | true =>
+        simp only [if_true]
+        have : ¬ 0 < t.offset := fun h => by have := hpos h; simp [hmin] at this
+        omega
+      | false =>
+        simp only [Bool.false_eq_true, if_false]
+        have : ¬ t.offset < 0 := fun h => by have := hneg h; simp [hmin] at this
+        omega
+    unfold parseTime
+    simp only [hfind, htake, hsecs, hdrop]
+    obtain ⟨htw1, htw2⟩ := takeWhileMN_hhmm hHa hHb hMa hMb
+    cases hmin : t.minus with
+    | true =>
+      simp only [hmin, if_true] at hsg hoff
+      subst hsg
+      simp only [if_true, List.dropWhile_cons, beq_self_eq_true,
+        show (a == 45) = false from by rw [beq_eq_false_iff_ne]; exact ha.2.1, Bool.false_eq_true,
+        if_false, htw1, hHval, htw2, hMval, List.takeWhile_nil, List.isEmpty_nil, hoff,
+        List.length_nil, List.drop_nil]
+      rw [← hmin]
+    | false =>
+      simp only [hmin, Bool.false_eq_true, if_false] at hsg hoff
+      subst hsg
+      simp only [show ((43 : UInt8) = 45) = False by decide, if_false, if_true, List.dropWhile_cons,
+        beq_self_eq_true,
+        show (a == 43) = false from by rw [beq_eq_false_iff_ne]; exact ha.2.2.1, Bool.false_eq_true,
+        htw1, hHval, htw2, hMval, List.takeWhile_nil, List.isEmpty_nil, hoff,
+        List.length_nil, List.drop_nil]
+      rw [← hmin]
+
+
+theorem takeWhile_prefix {p : UInt8 → Bool} {a r : Bytes} {y : UInt8} (ha : ∀ x ∈ a, p x = true)
+    (hy : p y = false) : (a ++ y :: r).takeWhile p = a := by
+  rw [List.takeWhile_append_of_pos ha, List.takeWhile_cons_of_neg (by simp [hy])]
+  simp
+
+theorem takeWhile_all {p : UInt8 → Bool} {a : Bytes} (ha : ∀ x ∈ a, p x = true) :
+    a.takeWhile p = a := by
+  have := List.takeWhile_append_of_pos (l₂ := []) ha
+  simpa using this
+
+theorem hexNibble_spec : ∀ n : Nat, n < 16 →
+    isHexLc (if n < 10 then UInt8.ofNat (48 + n) else UInt8.ofNat (87 + n)) = true := by
+  decide +kernel
+
+theorem hexBytes_all (id : Bytes) : ∀ x ∈ hexBytes id, isHexLc x = true := by
+  induction id with
+  | nil => intro x hx; simp [hexBytes] at hx
+  | cons b id ih =>
+    intro x hx
+    unfold hexBytes at hx
+    rw [List.flatMap_cons] at hx
+    rcases List.mem_append.1 hx with h | h
+    · have h1 := hexNibble_spec (b.toNat / 16) (by have := b.toNat_lt; omega)
+      have h2 := hexNibble_spec (b.toNat % 16) (Nat.mod_lt _ (by omega))
+      simp only [List.mem_cons, List.not_mem_nil, or_false] at h
+      rcases h with h | h
+      · rw [h]; exact h1
+      · rw [h]; exact h2
+    · exact ih x h
+
+theorem hexBytes_length (id : Bytes) : (hexBytes id).length = 2 * id.length := by
+  induction id with
+  | nil => rfl
+  | cons b id ih =>
+    unfold hexBytes at ih ⊢
+    rw [List.flatMap_cons, List.length_append, ih]
+    simp only [List.length_cons, List.length_nil]; omega
+
+theorem isHexLc_ne {x : UInt8} (h : isHexLc x = true) :
+    x ≠ 32 ∧ x ≠ 62 ∧ x ≠ 60 ∧ x ≠ 10 ∧ x ≠ 9 := by
+  refine ⟨?_, ?_, ?_, ?_, ?_⟩ <;> (intro he; subst he; revert h; decide)
+
+theorem hexHash_written {H r : Bytes} {y : UInt8} (hall : ∀ x ∈ H, isHexLc x = true)
+    (hlen : H.length = 40) (hy : isHexLc y = false) : hexHash (H ++ y :: r) = some (H, y :: r) := by
+  unfold hexHash takeWhileMN
+  simp only [takeWhile_prefix hall hy]
+  rw [List.take_of_length_le (by omega)]
+  simp only [hlen, Nat.lt_irrefl, if_false]
+  rw [← hlen, List.drop_left]
+
+
+theorem illegalToken_false {bs : Bytes} (h : illegalToken bs = false) :
+    (60 : UInt8) ∉ bs ∧ (62 : UInt8) ∉ bs ∧ (10 : UInt8) ∉ bs := by
+  unfold illegalToken at h
+  rw [List.any_eq_false] at h
+  refine ⟨?_, ?_, ?_⟩ <;> (intro hm; have := h _ hm; simp at this)
+
+/-- the email has no whitespace at either end (and, being a legal token, no `<` / `>`) -/
+def EmailTrimmed (email : Bytes) : Prop :=
+  (∀ x, email.head? = some x → isWs x = false) ∧ (∀ x, email.getLast? = some x → isWs x = false)
+
+theorem identity_written (name email T : Bytes) (hn : illegalToken name = false)
+    (he : illegalToken email = false) (htrim : EmailTrimmed email)
+    (hT : (62 : UInt8) ∉ T ∧ (10 : UInt8) ∉ T) :
+    identity (name ++ 32 :: 60 :: (email ++ 62 :: 32 :: T)) = some (name, email, 32 :: T) := by
+  obtain ⟨hn60, hn62, hn10⟩ := illegalToken_false hn
+  obtain ⟨he60, he62, he10⟩ := illegalToken_false he
+  -- the whole input and its pieces
+  generalize hS : name ++ 32 :: 60 :: (email ++ 62 :: 32 :: T) = S
+  have hS1 : S = (name ++ 32 :: 60 :: email) ++ 62 :: (32 :: T) := by rw [← hS]; simp
+  have hnae_len : (name ++ 32 :: 60 :: email).length = name.length + 2 + email.length := by
+    simp; omega
+  have h10 : findByte 10 S = none := by
+    rw [findByte_none, ← hS]
+    simp only [List.mem_append, List.mem_cons, not_or]
+    exact ⟨hn10, by decide, by decide, he10, by decide, by decide, hT.2⟩
+  have hrf : rfindByte 62 (S.take S.length) = some (name.length + 2 + email.length) := by
+    rw [List.take_length, hS1, rfindByte_append (by simp [hT.1]), hnae_len]
+  have hnae : S.take (name.length + 2 + email.length) = name ++ 32 :: 60 :: email := by
+    rw [hS1]; exact List.take_left' hnae_len
+  have hskipR : ((name ++ 32 :: 60 :: email).reverse.takeWhile (fun b => isWs b || b == 62)) = [] := by
+    simp only [List.reverse_append, List.reverse_cons]
+    cases hrev : email.reverse with
+    | nil => simp [isWs]
+    | cons x xs =>
+      have hx : email.getLast? = some x := by
+        rw [List.getLast?_eq_head?_reverse, hrev]; rfl
+      have hxws := htrim.2 x hx
+      have hxmem : x ∈ email := by
+        have : x ∈ email.reverse := by rw [hrev]; simp
+        exact List.mem_reverse.1 this
+      have hx62 : (x == 62) = false := by
+        rw [beq_eq_false_iff_ne]; intro h; subst h; exact he62 hxmem
+      simp [hxws, hx62]
+  have hfind60 : findByte 60 (name ++ 32 :: 60 :: email) = some (name.length + 1) := by
+    have : name ++ 32 :: 60 :: email = (name ++ [32]) ++ 60 :: email := by simp
+    rw [this, findByte_append (by simp [hn60])]
+    simp
+  have hdropL : S.drop (name.length + 1) = 60 :: (email ++ 62 :: 32 :: T) := by
+    rw [← hS]
+    have : name ++ 32 :: 60 :: (email ++ 62 :: 32 :: T) = (name ++ [32]) ++ 60 :: (email ++ 62 :: 32 :: T) := by simp
+    rw [this]; exact List.drop_left' (by simp)
+  have hskipL : ((60 :: (email ++ 62 :: 32 :: T)).takeWhile (fun b => isWs b || b == 60)).length = 1 := by
+    rw [List.takeWhile_cons_of_pos (by decide)]
+    cases email with
+    | nil => simp [isWs]
+    | cons x xs =>
+      have hxws := htrim.1 x rfl
+      have hx60 : (x == 60) = false := by
+        rw [beq_eq_false_iff_ne]; intro h; subst h; exact he60 (by simp)
+      simp [hxws, hx60]
+  have hname0 : S.take (name.length + 1) = name ++ [32] := by
+    rw [← hS]
+    have : name ++ 32 :: 60 :: (email ++ 62 :: 32 :: T) = (name ++ [32]) ++ 60 :: (email ++ 62 :: 32 :: T) := by simp
+    rw [this]; exact List.take_left' (by simp)
+  have hrest : S.drop (name.length + 2 + email.length + 1) = 32 :: T := by
+    rw [hS1]
+    have : name ++ 32 :: 60 :: email ++ 62 :: 32 :: T = (name ++ 32 :: 60 :: email ++ [62]) ++ 32 :: T := by simp
+    rw [this]; exact List.drop_left' (by simp; omega)
+  have hemail : (name ++ 32 :: 60 :: email).drop (name.length + 1 + 1) = email := by
+    have : name ++ 32 :: 60 :: email = (name ++ [32, 60]) ++ email := by simp
+    rw [this]; exact List.drop_left' (by simp)
+  unfold identity
+  simp only [h10, hrf, hnae, hskipR, List.length_nil, hfind60, hdropL, hskipL, hname0,
+    List.getLast?_append, List.getLast?_singleton, Option.some_or, if_true, List.dropLast_concat,
+    Nat.sub_zero, hemail, hrest]
+  rw [if_pos (by omega)]
+
+
+theorem timeBytes_mem (t : Time) (tb : Bytes) (hw : t.write = some tb) :
+    ∀ x ∈ tb, x = 45 ∨ x = 43 ∨ x = 32 ∨ isDigit x = true := by
+  unfold Time.write at hw
+  simp only at hw
+  by_cases hh : t.offset.natAbs / 3600 > 99
+  · simp [hh] at hw
+  · simp only [hh, if_false, Option.some.injEq] at hw
+    have hH100 : t.offset.natAbs / 3600 < 100 := by omega
+    have hM100 : (t.offset.natAbs - t.offset.natAbs / 3600 * 3600) / 60 < 100 := by omega
+    obtain ⟨hHeq, hHa, hHb, _⟩ := twoDigits_table _ hH100
+    obtain ⟨hMeq, hMa, hMb, _⟩ := twoDigits_table _ hM100
+    rw [hHeq, hMeq] at hw
+    intro x hx
+    rw [← hw] at hx
+    simp only [List.mem_append, List.mem_cons, List.not_mem_nil, or_false] at hx
+    rcases hx with ((((h | h) | h) | h | h) | h | h)
+    · rcases intDec_mem _ _ h with h | h
+      · exact Or.inl h
+      · exact Or.inr (Or.inr (Or.inr h))
+    · exact Or.inr (Or.inr (Or.inl h))
+    · by_cases hm : t.minus = true
+      · simp only [hm, if_true] at h; exact Or.inl h
+      · simp only [hm] at h; exact Or.inr (Or.inl h)
+    · rw [h]; exact Or.inr (Or.inr (Or.inr hHa))
+    · rw [h]; exact Or.inr (Or.inr (Or.inr hHb))
+    · rw [h]; exact Or.inr (Or.inr (Or.inr hMa))
+    · rw [h]; exact Or.inr (Or.inr (Or.inr hMb))
+
+theorem timeBytes_free (t : Time) (tb : Bytes) (hw : t.write = some tb) :
+    (62 : UInt8) ∉ tb ∧ (10 : UInt8) ∉ tb ∧ (9 : UInt8) ∉ tb := by
+  have h := timeBytes_mem t tb hw
+  refine ⟨?_, ?_, ?_⟩ <;>
+  · intro hm
+    rcases h _ hm with h | h | h | h
+    · exact absurd h (by decide)
+    · exact absurd h (by decide)
+    · exact absurd h (by decide)
+    · exact absurd h (by decide)
+
+/-- Everything `parseLine` needs to know about a line assembled by the writers: two 40-digit hex
+ids, a signature written by `writeSig` on the canonical domain, and either nothing or a tab and a
+newline-free message. -/
+theorem parseLine_assembled (H1 H2 name email tb sfx msg : Bytes) (t : Time)
+    (hH1 : ∀ x ∈ H1, isHexLc x = true) (hH1len : H1.length = 40)
+    (hH2 : ∀ x ∈ H2, isHexLc x = true) (hH2len : H2.length = 40)
+    (hn : illegalToken name = false) (he : illegalToken email = false) (htrim : EmailTrimmed email)
+    (hw : t.write = some tb) (hc : TimeCanonical t)
+    (hsfx : (sfx = [] ∧ msg = []) ∨ (sfx = 9 :: msg ∧ (10 : UInt8) ∉ msg)) :
+    parseLine (H1 ++ 32 :: (H2 ++ 32 :: (name ++ 32 :: 60 :: (email ++ 62 :: 32 :: tb))) ++ sfx)
+      = some { old := H1, new := H2, name := name, email := email, time := t, msg := msg } := by
+  obtain ⟨hn60, hn62, hn10⟩ := illegalToken_false hn
+  obtain ⟨he60, he62, he10⟩ := illegalToken_false he
+  obtain ⟨ht62, ht10, ht9⟩ := timeBytes_free t tb hw
+  have hex_free : ∀ {H : Bytes}, (∀ x ∈ H, isHexLc x = true) → ∀ c : UInt8,
+      (c = 32 ∨ c = 62 ∨ c = 60 ∨ c = 10 ∨ c = 9) → c ∉ H := by
+    intro H hH c hc hm
+    have := isHexLc_ne (hH c hm)
+    rcases hc with h | h | h | h | h <;> simp_all
+  generalize hS : name ++ 32 :: 60 :: (email ++ 62 :: 32 :: tb) = S
+  generalize hhead : H1 ++ 32 :: (H2 ++ 32 :: S) = head
+  -- the signature part has no newline and no tab after its `>`
+  have hsfx10 : (10 : UInt8) ∉ sfx := by
+    rcases hsfx with ⟨h, _⟩ | ⟨h, h2⟩
+    · rw [h]; simp
+    · rw [h]; simp only [List.mem_cons, not_or]; exact ⟨by decide, h2⟩
+  have hS10 : (10 : UInt8) ∉ S := by
+    rw [← hS]; simp only [List.mem_append, List.mem_cons, not_or]
+    exact ⟨hn10, by decide, by decide, he10, by decide, by decide, ht10⟩
+  have hhead10 : (10 : UInt8) ∉ head := by
+    rw [← hhead]; simp only [List.mem_append, List.mem_cons, not_or]
+    exact ⟨hex_free hH1 10 (by simp), by decide, hex_free hH2 10 (by simp), by decide, hS10⟩
+  have hfind10 : findByte 10 (head ++ sfx) = none := by
+    rw [findByte_none]; simp only [List.mem_append, not_or]; exact ⟨hhead10, hsfx10⟩
+  -- the first `>`
+  let P := H1 ++ 32 :: (H2 ++ 32 :: (name ++ 32 :: 60 :: email))
+  have hP62 : (62 : UInt8) ∉ P := by
+    show (62 : UInt8) ∉ H1 ++ 32 :: (H2 ++ 32 :: (name ++ 32 :: 60 :: email))
+    simp only [List.mem_append, List.mem_cons, not_or]
+    exact ⟨hex_free hH1 62 (by simp), by decide, hex_free hH2 62 (by simp), by decide, hn62,
+      by decide, by decide, he62⟩
+  have hheadP : head = P ++ 62 :: (32 :: tb) := by
+    rw [← hhead, ← hS]; show _ = (H1 ++ 32 :: (H2 ++ 32 :: (name ++ 32 :: 60 :: email))) ++ _; simp
+  have hfind62 : findByte 62 (head ++ sfx) = some P.length := by
+    rw [hheadP, List.append_assoc, List.cons_append]; exact findByte_append hP62
+  have hdropP : (head ++ sfx).drop P.length = 62 :: 32 :: tb ++ sfx := by
+    rw [hheadP, List.append_assoc]; exact List.drop_left
+  have hheadlen : head.length = P.length + (2 + tb.length) := by
+    rw [hheadP]; simp; omega
+  -- the separator
+  have hsep : beforeMessageLen (head ++ sfx) = head.length := by
+    unfold beforeMessageLen
+    simp only [hfind10, hfind62, hdropP]
+    rcases hsfx with ⟨h, _⟩ | ⟨h, _⟩
+    · subst h
+      have : findByte 9 (62 :: 32 :: tb) = none := by
+        rw [findByte_none]; simp only [List.mem_cons, not_or]
+        exact ⟨by decide, by decide, ht9⟩
+      simp only [List.append_nil, this]
+    · subst h
+      have : findByte 9 (62 :: 32 :: tb ++ 9 :: msg) = some (2 + tb.length) := by
+        have := findByte_append (c := 9) (a := 62 :: 32 :: tb) (b := msg)
+          (by simp only [List.mem_cons, not_or]; exact ⟨by decide, by decide, ht9⟩)
+        rw [this]; simp only [List.length_cons]; congr 1; omega
+      simp only [this, hheadlen]
+  have htakehead : (head ++ sfx).take head.length = head := List.take_left
+  have hdrophead : (head ++ sfx).drop head.length = sfx := List.drop_left
+  -- the pieces of the head
+  have hhash1 : hexHash head = some (H1, 32 :: (H2 ++ 32 :: S)) := by
+    rw [← hhead]; exact hexHash_written hH1 hH1len (by decide)
+  have hhash2 : hexHash (H2 ++ 32 :: S) = some (H2, 32 :: S) :=
+    hexHash_written hH2 hH2len (by decide)
+  have hident : identity S = some (name, email, 32 :: tb) := by
+    rw [← hS]; exact identity_written name email tb hn he htrim ⟨ht62, ht10⟩
+  have htime := parseTime_written t tb hw hc
+  have hsig : signature S = some (name, email, t, []) := by
+    unfold signature
+    simp only [hident, if_true, htime]
+  unfold parseLine
+  simp only [hsep, htakehead, hhash1, lit, if_true, hhash2, hsig, List.length_nil, Nat.sub_zero,
+    hdrophead]
+  rcases hsfx with ⟨h, h2⟩ | ⟨h, h2⟩
+  · subst h; subst h2; rfl
+  · subst h
+    simp only [if_true]
+    have : msg.takeWhile (· != 10) = msg := by
+      apply takeWhile_all
+      intro x hx
+      simp only [bne_iff_ne, ne_eq]
+      intro h; subst h; exact h2 hx
+    rw [this]
+
+
+/-- `writeSig` succeeds exactly on legal tokens and a writable time -/
+theorem writeSig_some {name email sig : Bytes} {t : Time} (h : writeSig name email t = some sig) :
+    illegalToken name = false ∧ illegalToken email = false ∧
+      ∃ tb, t.write = some tb ∧ sig = name ++ [32, 60] ++ email ++ [62, 32] ++ tb := by
+  unfold writeSig at h
+  cases hn : illegalToken name with
+  | true => simp [hn] at h
+  | false =>
+    cases he : illegalToken email with
+    | true => simp [hn, he] at h
+    | false =>
+      cases ht : t.write with
+      | none => simp [hn, he, ht] at h
+      | some tb =>
+        simp only [hn, he, ht, Bool.false_eq_true, if_false, Option.some.injEq] at h
+        exact ⟨rfl, rfl, tb, rfl, h.symm⟩
+
+/-- the signature part of a written line contains no newline -/
+theorem assembled_nlfree {H1 H2 name email tb : Bytes} {t : Time}
+    (hH1 : ∀ x ∈ H1, isHexLc x = true) (hH2 : ∀ x ∈ H2, isHexLc x = true)
+    (hn : illegalToken name = false) (he : illegalToken email = false) (hw : t.write = some tb) :
+    (10 : UInt8) ∉ H1 ++ 32 :: (H2 ++ 32 :: (name ++ 32 :: 60 :: (email ++ 62 :: 32 :: tb))) := by
+  obtain ⟨_, _, hn10⟩ := illegalToken_false hn
+  obtain ⟨_, _, he10⟩ := illegalToken_false he
+  obtain ⟨_, ht10, _⟩ := timeBytes_free t tb hw
+  have h1 : (10 : UInt8) ∉ H1 := fun hm => (isHexLc_ne (hH1 _ hm)).2.2.2.1 rfl
+  have h2 : (10 : UInt8) ∉ H2 := fun hm => (isHexLc_ne (hH2 _ hm)).2.2.2.1 rfl
+  simp only [List.mem_append, List.mem_cons, not_or]
+  exact ⟨h1, by decide, h2, by decide, hn10, by decide, by decide, he10, by decide, by decide, ht10⟩
+
 end GixModel.C21
